@@ -382,10 +382,10 @@ theorem C12_text_real_syntax (f : FieldA) (h : f.WF) (allow : Bool)
 
 /-! ## consequences: what is ignored -/
 
-/-- a field made of empty entries and substitution variables only is satisfied by every lookup
+/-- a field made of empty entries and substitution variables only (no relation is written) is satisfied by every lookup
     (even the empty one), under every comparison -/
 theorem C12_text_only_substvars (f : FieldA) (h : f.WF)
-    (hno : ∀ s ∈ f.segs, ∀ r rest, s.entry ≠ .alts r rest)
+    (hno : f.rels = [])
     (cmpO : V → V → Outcome Ordering) (lk : Lookup) :
     relationsSatLO cmpO lk (parse f.str true).tree = .ok true := by
   have hv : f.view = [] := by
@@ -393,10 +393,177 @@ theorem C12_text_only_substvars (f : FieldA) (h : f.WF)
     apply List.filterMap_eq_nil_iff.2
     intro s hs
     cases he : s.entry with
-    | alts r rest => exact absurd he (hno s hs r rest)
+    | alts r rest =>
+      have : r ∈ f.rels := List.mem_flatMap.2 ⟨s, hs, by simp [he, EntryA.rels]⟩
+      rw [hno] at this; exact absurd this (by simp)
     | substvar p ps => rfl
     | empty => rfl
   rw [C12_losslessO_eq_lossyO cmpO lk _ _ (viewL_text f h true (Or.inl rfl)), hv]
   rfl
+
+/-! ## non-vacuity: the hypotheses are satisfiable and the theorems fire -/
+
+/-- one space -/
+def sp : Gap := [.ws [' ']]
+
+/-- `libc6 (>= 2.36) | libc6.1, debhelper-compat (= 13), foo:any (<< 1:2.0~rc1-1) [amd64]` -/
+def exTextField : FieldA :=
+  ⟨[ ⟨[], .alts ⟨"libc6".toList, none, some ⟨sp, [], .GreaterThanEqual, sp, ⟨none, "2.36".toList⟩, []⟩, none, []⟩
+        [⟨sp, sp, ⟨"libc6.1".toList, none, none, none, []⟩⟩], []⟩,
+     ⟨sp, .alts ⟨"debhelper-compat".toList, none, some ⟨sp, [], .Equal, sp, ⟨none, "13".toList⟩, []⟩, none, []⟩ [], []⟩,
+     ⟨sp, .alts ⟨"foo".toList, some "any".toList,
+        some ⟨sp, [], .LessThan, sp, ⟨some ['1'], "2.0~rc1-1".toList⟩, []⟩,
+        some ⟨sp, [⟨[], false, "amd64".toList⟩], []⟩, []⟩ [], []⟩ ]⟩
+
+theorem exTextField_str : exTextField.str =
+    "libc6 (>= 2.36) | libc6.1, debhelper-compat (= 13), foo:any (<< 1:2.0~rc1-1) [amd64]".toList := by
+  decide +kernel
+theorem exTextField_wf : exTextField.WF := by decide +kernel
+theorem exTextField_nosub : exTextField.hasSubstvar = false := by decide +kernel
+
+/-- `libc6` too old, but the alternative `libc6.1` is installed; `foo` at `1:2.0~rc1-0` is below
+    `1:2.0~rc1-1` -/
+def exTextMap : List (Str × V) :=
+  [("libc6".toList, ver "2.31-13"), ("libc6.1".toList, ver "2.36-9"),
+   ("debhelper-compat".toList, ver "13"), ("foo".toList, ver "1:2.0~rc1-0")]
+/-- `foo` at `1:2.0-1` is not `<< 1:2.0~rc1-1` -/
+def exTextMapBad : List (Str × V) :=
+  [("libc6".toList, ver "2.36-9"), ("debhelper-compat".toList, ver "13"), ("foo".toList, ver "1:2.0-1")]
+
+-- the view the theorems speak about
+example : fieldY exTextField.view =
+    [[⟨"libc6".toList, some (.GreaterThanEqual, ver "2.36")⟩, ⟨"libc6.1".toList, none⟩],
+     [⟨"debhelper-compat".toList, some (.Equal, ver "13")⟩],
+     [⟨"foo".toList, some (.LessThan, ver "1:2.0~rc1-1")⟩]] := by decide +kernel
+
+-- C12_text_lossless: the answer computed on the text is `true`, hence the field is satisfied …
+example : Satisfied DebVersion.compare (Lookup.ofMap exTextMap) (fieldY exTextField.view) := by
+  obtain ⟨_, b, hb, hiff⟩ := C12_text_lossless exTextField exTextField_wf false (Or.inr exTextField_nosub)
+    DebVersion.compare (Lookup.ofMap exTextMap)
+  have : relationsSatL DebVersion.compare (Lookup.ofMap exTextMap) (parse exTextField.str false).tree = .ok true := by
+    decide +kernel
+  rw [this] at hb
+  exact hiff.1 (Outcome.ok.inj hb).symm
+
+-- … and with `foo` at `1:2.0-1` it is `false`, hence not satisfied (said on the syntax)
+example : ¬ FieldA.SatisfiedBy DebVersion.compare (Lookup.ofMap exTextMapBad) exTextField := by
+  obtain ⟨b, hb, hiff⟩ := C12_text_lossless_syntax exTextField exTextField_wf true (Or.inl rfl)
+    DebVersion.compare (Lookup.ofMap exTextMapBad)
+  have : relationsSatL DebVersion.compare (Lookup.ofMap exTextMapBad) (parse exTextField.str true).tree = .ok false := by
+    decide +kernel
+  rw [this] at hb
+  intro hsat
+  have := hiff.2 hsat
+  rw [← Outcome.ok.inj hb] at this
+  exact absurd this (by decide)
+
+-- C12_text_strict
+example : ∃ t b, readStrict exTextField.str = .ok t ∧
+    relationsSatL DebVersion.compare (Lookup.ofMap exTextMap) t = .ok b ∧
+    (b = true ↔ Satisfied DebVersion.compare (Lookup.ofMap exTextMap) (fieldY exTextField.view)) :=
+  C12_text_strict exTextField exTextField_wf exTextField_nosub _ _
+
+-- C12_text_lossy: the lossy path on the same text gives `true` as well
+example : ∃ rs, Lossy.readRelations exTextField.str = .ok rs ∧
+    relationsSatYO (total DebVersion.compare) (Lookup.ofMap exTextMap) (fieldY rs) = .ok true := by
+  obtain ⟨rs, b, hrs, hb, hiff⟩ := C12_text_lossy exTextField exTextField_wf exTextField_nosub
+    DebVersion.compare (Lookup.ofMap exTextMap)
+  refine ⟨rs, hrs, ?_⟩
+  have : b = true := hiff.2 ((C12_spec _ _ _).1 (by decide +kernel))
+  rw [hb, this]
+
+-- C12_text_agree with the panicking comparison, C12_text_agree_forms on a one-binding assignment
+example : ∃ rs, Lossy.readRelations exTextField.str = .ok rs ∧
+    relationsSatLO compareO (Lookup.ofMap exTextMap) (parse exTextField.str false).tree
+      = relationsSatYO compareO (Lookup.ofMap exTextMap) (fieldY rs) :=
+  C12_text_agree exTextField exTextField_wf exTextField_nosub false compareO _
+
+example : ∃ rs o, Lossy.readRelations exTextField.str = .ok rs ∧
+    relationsSatLO compareO (Lookup.ofMap [("foo".toList, ver "1")]) (parse exTextField.str false).tree = o ∧
+    relationsSatLO compareO (Lookup.ofFn fun n => if n = "foo".toList then some (ver "1") else none)
+      (parse exTextField.str false).tree = o ∧
+    relationsSatLO compareO (Lookup.ofPair ("foo".toList, ver "1")) (parse exTextField.str false).tree = o ∧
+    relationsSatYO compareO (Lookup.ofMap [("foo".toList, ver "1")]) (fieldY rs) = o ∧
+    relationsSatYO compareO (Lookup.ofFn fun n => if n = "foo".toList then some (ver "1") else none) (fieldY rs) = o ∧
+    relationsSatYO compareO (Lookup.ofPair ("foo".toList, ver "1")) (fieldY rs) = o :=
+  C12_text_agree_forms exTextField exTextField_wf exTextField_nosub false compareO
+    [("foo".toList, ver "1")] _ ("foo".toList, ver "1") (fun n => by rw [← ofPair_eq_ofMap]; rfl) rfl
+
+-- C12_text_real_*: the i32 hypotheses hold for the example, the real comparison answers `true`
+theorem exText_small_f : ∀ a ∈ exTextField.rels, ∀ p, a.version = some p → small p.ver.value = true := by
+  decide +kernel
+theorem exText_small_lk : ∀ a ∈ exTextField.rels, (((Lookup.ofMap exTextMap) a.name).all small) = true := by
+  decide +kernel
+
+example : relationsSatLO compareO (Lookup.ofMap exTextMap) (parse exTextField.str false).tree = .ok true := by
+  obtain ⟨b, hb, hiff⟩ := C12_text_real_lossless exTextField exTextField_wf false (Or.inr exTextField_nosub)
+    (Lookup.ofMap exTextMap) exText_small_f exText_small_lk
+  have : b = true := hiff.2 ((C12_spec _ _ _).1 (by decide +kernel))
+  rw [hb, this]
+
+example : ∃ rs b, Lossy.readRelations exTextField.str = .ok rs ∧
+    relationsSatYO compareO (Lookup.ofMap exTextMap) (fieldY rs) = .ok b ∧
+    relationsSatLO compareO (Lookup.ofMap exTextMap) (parse exTextField.str true).tree = .ok b ∧
+    (b = true ↔ Satisfied DebVersion.compare (Lookup.ofMap exTextMap) (fieldY exTextField.view)) :=
+  C12_text_real_lossy exTextField exTextField_wf exTextField_nosub true _ exText_small_f exText_small_lk
+
+-- the hypothesis of `C12_text_real_*` cannot be dropped on well-formed fields either (F-C12-1):
+-- `a (>= 2147483648)` is well-formed, and the real comparison panics on its text
+def exBigField : FieldA :=
+  ⟨[⟨[], .alts ⟨['a'], none, some ⟨sp, [], .GreaterThanEqual, sp, ⟨none, "2147483648".toList⟩, []⟩, none, []⟩ [], []⟩]⟩
+
+theorem C12_text_real_panic_witness :
+    exBigField.WF ∧ exBigField.str = "a (>= 2147483648)".toList ∧
+    (relationsSatLO compareO (Lookup.ofMap [(['a'], ver "1")]) (parse exBigField.str false).tree).isOk = false ∧
+    relationsSatL DebVersion.compare (Lookup.ofMap [(['a'], ver "1")]) (parse exBigField.str false).tree = .ok false := by
+  decide +kernel
+
+-- a field with a substitution variable, empty entries and a trailing comma (`C10.exField`):
+-- `libc6:any (>= 1:2.3~rc1-4 ) [amd64 !i386] < !nocheck stage1> <cross>\n | g++,\n ${shlibs:Depends}, ,x\n(<< 0),`
+example : ∃ b, relationsSatL DebVersion.compare (Lookup.ofMap [("g++".toList, ver "12"), (['x'], ver "0~")])
+      (parse C10.exField.str true).tree = .ok b ∧
+    (b = true ↔ FieldA.SatisfiedBy DebVersion.compare (Lookup.ofMap [("g++".toList, ver "12"), (['x'], ver "0~")]) C10.exField) :=
+  C12_text_lossless_syntax C10.exField (by decide +kernel) true (Or.inl rfl) _ _
+
+example : relationsSatL DebVersion.compare (Lookup.ofMap [("g++".toList, ver "12"), (['x'], ver "0~")])
+    (parse C10.exField.str true).tree = .ok true := by decide +kernel
+
+-- C12_text_agree_map_closure (an assignment with several bindings), C12_text_real_syntax
+example : ∃ rs o, Lossy.readRelations exTextField.str = .ok rs ∧
+    relationsSatLO compareO (Lookup.ofMap exTextMap) (parse exTextField.str false).tree = o ∧
+    relationsSatLO compareO (Lookup.ofFn fun n => exTextMap.lookup n) (parse exTextField.str false).tree = o ∧
+    relationsSatYO compareO (Lookup.ofMap exTextMap) (fieldY rs) = o ∧
+    relationsSatYO compareO (Lookup.ofFn fun n => exTextMap.lookup n) (fieldY rs) = o :=
+  C12_text_agree_map_closure exTextField exTextField_wf exTextField_nosub false compareO exTextMap
+
+example : ∃ b, relationsSatLO compareO (Lookup.ofMap exTextMap) (parse exTextField.str false).tree = .ok b ∧
+    (b = true ↔ FieldA.SatisfiedBy DebVersion.compare (Lookup.ofMap exTextMap) exTextField) :=
+  C12_text_real_syntax exTextField exTextField_wf false (Or.inr exTextField_nosub) _
+    exText_small_f exText_small_lk
+
+-- helper statements: viewL_of_accEntries, viewL_text, C12_losslessO_eq_lossyO
+example : viewL exTextField.tree = .ok (fieldY exTextField.view) :=
+  viewL_of_accEntries _ _ (accEntries_field exTextField exTextField_wf)
+example : viewL (parse exTextField.str false).tree = .ok (fieldY exTextField.view) :=
+  viewL_text exTextField exTextField_wf false (Or.inr exTextField_nosub)
+example : relationsSatLO compareO (Lookup.ofMap exMap) (field exText)
+    = relationsSatYO compareO (Lookup.ofMap exMap) exField :=
+  C12_losslessO_eq_lossyO compareO _ _ exField exView
+
+-- `hs` of the lossy statements cannot be dropped: the lossy reader refuses a substitution variable
+-- (on the well-formed `C10.exField`), while the lossless evaluator answers (example above)
+theorem C12_text_lossy_substvar_witness :
+    C10.exField.WF ∧ C10.exField.hasSubstvar = true ∧
+    (match Lossy.readRelations C10.exField.str with | .ok _ => true | .error _ => false) = false := by
+  decide +kernel
+
+-- C12_text_only_substvars: `${misc:Depends}, , ${shlibs:Depends},`
+def exOnlySubst : FieldA :=
+  ⟨[⟨[], .substvar "misc".toList ["Depends".toList], []⟩, ⟨sp, .empty, []⟩,
+    ⟨sp, .substvar "shlibs".toList ["Depends".toList], []⟩, ⟨[], .empty, []⟩]⟩
+
+example : exOnlySubst.str = "${misc:Depends}, , ${shlibs:Depends},".toList := by decide +kernel
+example : relationsSatLO compareO (fun _ => none) (parse exOnlySubst.str true).tree = .ok true :=
+  C12_text_only_substvars exOnlySubst (by decide +kernel) (by decide +kernel) _ _
 
 end Deb822Verif.Props.C12
